@@ -27,6 +27,7 @@ import (
 	"os"
 	"strconv"
 	"strings"
+	"unicode"
 )
 
 var fset = token.NewFileSet()
@@ -521,6 +522,8 @@ func main() {
 	fmt.Fprintf(&b, "Definition last_local_time : list N := [%s].\n", strings.Join(tt.localTime, "; "))
 	fmt.Fprintf(&b, "Definition last_filter_function : list N := [%s].\n", strings.Join(tt.filterF, "; "))
 
+	emitUnicode(&b)
+
 	if *out == "" {
 		fmt.Print(b.String())
 		return
@@ -532,4 +535,53 @@ func main() {
 		fmt.Fprintln(os.Stderr, "genlex:", err)
 		os.Exit(2)
 	}
+}
+
+// emitUnicode writes the tables of the Go toolchain's unicode package that the lexer consults (IsLetter = category L,
+// IsDigit = Nd, IsSpace = White_Space, ToLower) as range lists, so that the model classifies every rune like the
+// implementation built with the same toolchain.
+func emitUnicode(b *strings.Builder) {
+	b.WriteString("\n(* unicode tables of the Go toolchain (version " + unicode.Version + "): (lo, hi, stride) *)\n")
+	ranges := func(name string, t *unicode.RangeTable) {
+		fmt.Fprintf(b, "Definition %s : list (Z * Z * Z) := [\n", name)
+		var items []string
+		for _, r := range t.R16 {
+			items = append(items, fmt.Sprintf("  (%d, %d, %d)%%Z", r.Lo, r.Hi, r.Stride))
+		}
+		for _, r := range t.R32 {
+			items = append(items, fmt.Sprintf("  (%d, %d, %d)%%Z", r.Lo, r.Hi, r.Stride))
+		}
+		b.WriteString(strings.Join(items, ";\n"))
+		b.WriteString("\n].\n")
+	}
+	ranges("uni_letter_ranges", unicode.Letter)
+	ranges("uni_digit_ranges", unicode.Nd)
+	ranges("uni_space_ranges", unicode.White_Space)
+	// ToLower as maximal runs [lo, hi] with a constant non-zero delta
+	b.WriteString("(* unicode.ToLower: (lo, hi, delta) with ToLower r = r + delta on [lo, hi]; identity elsewhere *)\n")
+	b.WriteString("Definition uni_lower_runs : list (Z * Z * Z) := [\n")
+	var items []string
+	start, prev, delta := rune(-1), rune(-1), rune(0)
+	flush := func() {
+		if start >= 0 {
+			items = append(items, fmt.Sprintf("  (%d, %d, %s)%%Z", start, prev, coqZ(int64(delta))))
+		}
+		start = -1
+	}
+	for r := rune(0); r <= unicode.MaxRune; r++ {
+		d := unicode.ToLower(r) - r
+		if d == 0 {
+			flush()
+			continue
+		}
+		if start >= 0 && r == prev+1 && d == delta {
+			prev = r
+			continue
+		}
+		flush()
+		start, prev, delta = r, r, d
+	}
+	flush()
+	b.WriteString(strings.Join(items, ";\n"))
+	b.WriteString("\n].\n")
 }
